@@ -11,6 +11,7 @@
 #include <map>
 #include <sstream>
 #include <string>
+#include <string>
 #include <unordered_set>
 #include <vector>
 
@@ -109,6 +110,13 @@ inline double nudge(double x, int ulp)
   return x;
 }
 
+// stable storage for clause / label strings built at run time (Ctx keeps only pointers)
+inline const char * intern(const std::string & s)
+{
+  static std::unordered_set<std::string> pool;
+  return pool.insert(s).first->c_str();
+}
+
 // ------------------------------------------------------------------------------------------------
 // Known findings (read once from KNOWN_FINDINGS.txt, never written)
 // ------------------------------------------------------------------------------------------------
@@ -176,6 +184,10 @@ struct Ctx
     if (!ok) fail(clause, observed, "true");
     return ok;
   }
+  // run-time built clause names
+  bool le(const std::string & clause, double err, double tol) { return le(intern(clause), err, tol); }
+  bool require(const std::string & clause, bool ok, const std::string & observed = "false") { return require(intern(clause), ok, observed); }
+  void label(const std::string & l) { labels.push_back(intern(l)); }
 };
 
 using CheckFn = void (*)(Tape &, Ctx &);
